@@ -4,7 +4,7 @@ One State = one path.  Branches on symbolic conditions fork (both sides checked
 for feasibility with the solver).  vf_check / vf_close are decided by a solver
 query per path; SAT answers carry a model of the vf_* inputs for native replay.
 """
-import math, time, itertools, struct
+import math, time, itertools, struct, os, sys
 from fractions import Fraction
 import z3
 from . import irparse as ir
@@ -240,6 +240,9 @@ class Engine:
         off = z3.simplify(off)
         if z3.is_bv_value(off):
             return to_signed(off.as_long(), 64)
+        k = self.known(st, off)
+        if k is not None:
+            return to_signed(k.as_long(), 64)
         raise SymOffset(off)
 
     def _zero_at(self, o, b):
@@ -887,10 +890,13 @@ class Engine:
                 return r
         return None
 
-    def fork_on_values(self, st, term, what, limit=256):
+    def fork_on_values(self, st, term, what, limit=64):
         """Concretise a symbolic term by case split; current instruction is re-executed in each child."""
         vals = []
         cons = list(st.pc)
+        if os.environ.get("VF_TRACE"):
+            fr = st.frames[-1]
+            print("[concretise %s] %d constraints, in %s: %s | term %s" % (what, len(cons), P_dem(fr.func.name), fr.instrs[fr.ip].text[:90], str(term)[:160]), file=sys.stderr)
         while len(vals) <= limit:
             r, m = self.check(cons, want_model=True)
             if r != "sat":
@@ -901,18 +907,34 @@ class Engine:
             vals.append(v)
             cons.append(term != v)
         if len(vals) > limit:
-            raise EngineError("too many feasible values for symbolic %s (> %d)" % (what, limit))
+            raise EngineError("too many feasible values for symbolic %s (> %d): %s" % (what, limit, str(term)[:200]))
         if not vals:
             raise PathEnd("infeasible")
+        def remember(state, v):
+            # the instruction is re-executed: it must find the chosen value for this term
+            m = dict(state.user.get("conc") or {})
+            m[term.get_id()] = (term, v)
+            state.user["conc"] = m
         if len(vals) == 1:
             st.pc.append(term == vals[0])
+            remember(st, vals[0])
             return None
         out = []
         for v in vals:
             c = st.fork()
             c.pc.append(term == v)
+            remember(c, v)
             out.append(c)
         return out
+
+    def known(self, st, term):
+        """value chosen earlier for a concretised term on this path (or None)"""
+        m = st.user.get("conc")
+        if m:
+            hit = m.get(term.get_id())
+            if hit is not None and hit[0].eq(term):
+                return hit[1]
+        return None
 
     def set(self, fr, ins, v):
         if ins.dst is not None:
